@@ -15,7 +15,7 @@ BASE_NAMES = ['foo', 'Foo', 'FOO', 'foo.txt', 'foo.o', 'bar', 'bar.o', 'a',
 def config(tier):
     return {
         'level': 'exploration',
-        'cases': 1500 if tier == 'quick' else 120000,
+        'cases': 7000 if tier == 'quick' else 120000,
         'budget_s': 45 if tier == 'quick' else 560,
         'floors': {'cases': 300, 'judged_entries': 2000, 'removed': 300,
                    'kept': 500, 'fullpath_patterns': 40},
